@@ -164,6 +164,13 @@ def run(ctx) -> None:
             ctx.check(not diff and bool(fresh), "C14.H4.rejected-config-leaves-nothing-behind",
                       f"{ft} operation with a {lab} after a fully configured operation", (str(diff[0]) if diff else "no outcome")[:300],
                       "the operation ends (error, or config values / observers / argv / regex calls / result) as it does in a fresh process")
+    # H5: tables consulted while compiling are not used up: the same names compile the same way every time
+    regdoc = {"pattern": [{Sym("M1"): ["ah", Sym("O1")]}, {Sym("M2"): ["bh", "10h"]}, {Sym("M3"): ["ch", "dh"]}]}
+    hexdoc = {"pattern": [{Sym("M4"): ["10h", "A3h"]}]}
+    compile_sequence_equals_fresh(ctx, "C14.H5.tables-not-used-up", [
+        ("register-like operand names, compiled twice", [regdoc, regdoc]),
+        ("register-like operand names after hex literals", [hexdoc, regdoc]),
+        ("register-like operand names, third compilation", [regdoc, hexdoc, regdoc])])
     timesdoc = {"pattern": [{Sym("M1"): [Sym("O1")], "times": 2}, {"$or": [Sym("M2"), Sym("M3")], "times": {"min": 0, "max": 3}},
                             {Sym("M4"): {"times": 3}}, {Sym("M5"): ["&x"]}, {Sym("M6"): ["&x"]}]}
     for label, d in (("times/captures rule", timesdoc), ("capture rule", docsB[0])):
